@@ -4,7 +4,9 @@ use crate::trackers::sort::SortAttributesOptions;
 use crate::trackers::spatio_temporal_constraints::SpatioTemporalConstraints;
 use crate::utils::bbox::verif_kani__common::any_valid_ubox;
 use crate::utils::kalman::kalman_2d_box::DIM_2D_BOX_X2;
-use crate::utils::kalman::{KalmanState, CHI2INV95, CHI2_UPPER_BOUND};
+use crate::utils::kalman::KalmanState;
+const GATE5: f32 = 11.070; // 95% chi-square quantile, 5 degrees of freedom (written out)
+const UPPER: f32 = 100.0;
 use std::sync::Arc;
 
 static mut FAR: bool = false;
@@ -138,8 +140,8 @@ fn c02_sort_metric_maha_gate() {
         assert!(matches!(r, Some((Some(_), None))), "C02/sort.metric.maha.one_positional_value: exactly one positional value and no feature distance");
         if let Some((Some(c), _)) = r {
             assert!(c >= 0.0, "C02/sort.metric.maha.nonnegative: the weight is never negative");
-            assert!(!(d > CHI2INV95[4]) || c == 0.0, "C02/sort.metric.maha.outside_gate_zero_weight: outside the 95% chi-square gate the weight is 0");
-            assert!(d > CHI2INV95[4] || c >= CHI2_UPPER_BOUND - CHI2INV95[4], "C02/sort.metric.maha.inside_gate_weight_at_least_upper_minus_gate: inside the gate the weight is at least 100 - gate");
+            assert!(!(d > GATE5) || c == 0.0, "C02/sort.metric.maha.outside_gate_zero_weight: outside the 95% chi-square gate the weight is 0");
+            assert!(d > GATE5 || c >= UPPER - GATE5, "C02/sort.metric.maha.inside_gate_weight_at_least_upper_minus_gate: inside the gate the weight is at least 100 - gate");
         }
     }
 }
